@@ -103,6 +103,25 @@ func genC15(d *Draw) Case {
 	case "C18":
 		inner = genC18(d)
 	}
+	// vary the attributes of the definitions element that the rest of the document relies on
+	var hd *Definitions
+	switch x := inner.(type) {
+	case *ProcCase:
+		hd = x.Prog.Defs
+	case *SetCase:
+		hd = x.Defs
+	}
+	if hd != nil {
+		hd.TypeLang = d.Bool()
+		hd.Exporter = d.Bool()
+		hd.ImplicitLang = d.Bool()
+		if d.N(3) == 2 {
+			hd.DefLang = "xpath"
+		}
+		if _, ok := inner.(*ProcCase); ok && d.Bool() {
+			hd.Zoo = zooProcess(d)
+		}
+	}
 	return &c15Case{Family: fam, Inner: inner}
 }
 
